@@ -18,6 +18,11 @@
 (*           harness/dt_common.py), min / max are GRID INDICES; physical values  *)
 (*           at such a position are "gnum": q = position in quarter grid steps   *)
 (*           (4n = the float n*scale), ix = strictly between q and q+1.          *)
+(*           [k |-> "bscaled", sid, min, max]  a scaled type (power-of-two scale) *)
+(*           whose integer range reaches 2^52 .. 2^53: limits and values are      *)
+(*           exact grid positions [a, d] = anchor a + d with the anchors -2^53    *)
+(*           -2^52 0 2^52 2^53 (a in -2..2); "gint" = the wire integer at such a  *)
+(*           position, "bgnum" = the float (anchor + d) * scale                   *)
 (*           [k |-> "bool"]  [k |-> "enum", mem |-> << [n, v] ... >>]            *)
 (*           a string record with the extra field text (TextType) and a tuple    *)
 (*           <<el, el>> with the extra field limit (LimitsType: an ordered pair) *)
@@ -54,6 +59,8 @@ N(t) == [j |-> "num", t |-> t, ix |-> FALSE, w |-> (t % U = 0)]
 NX(t, w) == [j |-> "num", t |-> t, ix |-> TRUE, w |-> w]
 BI(a, d) == [j |-> "bint", a |-> a, d |-> d]   \* the python int anchor(a) + d, beyond +-HUGE
 G(q, ix) == [j |-> "gnum", q |-> q, ix |-> ix, src |-> "num"]    \* physical value of a gscaled position, in quarter grid steps
+GI(a, d) == [j |-> "gint", a |-> a, d |-> d]     \* wire integer offered to a bscaled position: grid index anchor(a) + d
+BG(a, d) == [j |-> "bgnum", a |-> a, d |-> d]    \* python float at a bscaled position: (anchor(a) + d) * scale, exactly on the grid
 Sp(s) == [j |-> "special", s |-> s]        \* "nan" "pinf" "ninf"
 FMax(s) == [j |-> "fmax", s |-> s]         \* +-float_info.max, s in {1,-1}
 \* strings: cls in {"ascii","esc","utf8","nul"} (esc = ASCII with quote/backslash/newline), len = characters, blen = bytes when the
@@ -219,6 +226,27 @@ VGScaled(d, c, path) ==
            [] c.j = "special" -> AnyErr
            [] OTHER -> {WT}
 
+(* bscaled: exact integer arithmetic on grid positions; one step outside a limit is the undecided tolerance boundary *)
+GPos(c) == IF c.j \in {"gint", "bgnum"} THEN P(c.a, c.d) ELSE P(0, c.n)
+Near(p, q) == p.a = q.a /\ Abs(p.d) # FAR /\ Abs(q.d) # FAR /\ Abs(p.d - q.d) = 1
+BRes(d, p, path) ==
+    (IF PLE(d.min, p) /\ PLE(p, d.max) THEN {Ok(BG(p.a, p.d))}
+     ELSE IF Near(p, d.min) THEN {Ok(BG(d.min.a, d.min.d)), RE}
+     ELSE IF Near(p, d.max) THEN {Ok(BG(d.max.a, d.max.d)), RE}
+     ELSE {RE})
+    \cup (IF path = "call" THEN {Ok(BG(p.a, p.d))} ELSE {})
+VBScaled(d, c, path) ==
+    IF path = "wire"
+    THEN CASE c.j = "gint" -> BRes(d, GPos(c), path)
+           [] c.j = "int" /\ Abs(c.n) < HUGE -> BRes(d, P(0, c.n), path)
+           [] c.j = "bool" -> {WT} \cup BRes(d, P(0, B2I(c.b)), path)
+           [] c.j = "num" -> IF c.w /\ Abs(c.t) < HUGE THEN {WT} \cup BRes(d, P(0, c.t \div U), path) ELSE AnyErr
+           [] c.j \in {"int", "bint", "special"} -> AnyErr         \* (big plain integers are not grounded in grid positions: never offered)
+           [] OTHER -> {WT}
+    ELSE CASE c.j = "bgnum" -> BRes(d, GPos(c), path)
+           [] c.j \in {"int", "num", "bint", "bool", "member", "fmax", "gnum", "special"} -> AnyErr
+           [] OTHER -> {WT}
+
 (* bool *)
 BoolOf(n) == IF n \in {0, 1} THEN {Ok(B(n = 1)), WT} ELSE AnyErr
 VBool(dt, c, path) ==
@@ -303,6 +331,7 @@ Val(dt, c0, prev, path) ==
       [] dt.k = "bigint" -> VBigInt(dt, c, path)
       [] dt.k = "scaled" -> VScaled(dt, c, path)
       [] dt.k = "gscaled" -> VGScaled(dt, c, path)
+      [] dt.k = "bscaled" -> VBScaled(dt, c, path)
       [] dt.k = "bool" -> VBool(dt, c, path)
       [] dt.k = "enum" -> VEnum(dt, c, path)
       [] dt.k = "string" -> VString(dt, c, path)
@@ -353,6 +382,7 @@ InSet(dt, v, lim) ==
       [] dt.k = "scaled" -> /\ v.j = "num"
                             /\ \/ ~lim /\ v.ix /\ Abs(v.t) >= HUGE
                                \/ ~v.ix /\ v.t % dt.scale = 0 /\ (~lim \/ (dt.min <= v.t /\ v.t <= dt.max))
+      [] dt.k = "bscaled" -> v.j = "bgnum" /\ (~lim \/ (PLE(dt.min, P(v.a, v.d)) /\ PLE(P(v.a, v.d), dt.max)))
       [] dt.k = "gscaled" -> /\ v.j = "gnum"
                              /\ \/ ~lim /\ v.ix /\ Abs(v.q) >= HUGE
                                 \/ ~v.ix /\ v.q % 4 = 0 /\ (~lim \/ (4 * dt.min <= v.q /\ v.q <= 4 * dt.max))
@@ -396,6 +426,10 @@ Denotes(dt, c0, v, prev, path) ==
            THEN \E s \in NumSrc(c) : Whole(s) /\ Abs(AsInt(s).n) < WIREBIG /\ v.j = "num" /\ ~v.ix
                                      /\ Abs(v.t - AsInt(s).n * dt.scale) <= dt.scale
            ELSE \E s \in NumSrc(c) : NumClose(s, v, 8 * dt.scale)
+      [] dt.k = "bscaled" ->
+           /\ v.j = "bgnum"
+           /\ \E p \in (IF c.j \in {"gint", "bgnum"} THEN {GPos(c)} ELSE {PosOf(AsInt(s)) : s \in {x \in NumSrc(c) : Whole(x)}}) :
+                 P(v.a, v.d) = p \/ Near(P(v.a, v.d), p)
       [] dt.k = "gscaled" ->
            /\ v.j = "gnum"
            /\ IF path = "wire"
@@ -477,6 +511,10 @@ OwnGScaled(dt) ==
     \cup {G(q, FALSE) : q \in {4 * a - 5, 4 * a - 4, 4 * a - 3, 4 * a - 2, 4 * a, 4 * a + 1, 4 * a + 2, 4 * a + 4,
                                 4 * b - 4, 4 * b - 2, 4 * b, 4 * b + 2, 4 * b + 3, 4 * b + 4, 4 * b + 5}}     \* grid, quarter and half-grid points around both limits
     \cup {G(4 * a - 4, TRUE), G(4 * a - 5, TRUE), G(4 * b, TRUE), G(4 * b + 3, TRUE)}
+OddPoints == {P(2, -1), P(2, -3), P(1, 1), P(1, 3), P(1, 0), P(-2, 1), P(-2, 3), P(-1, -1), P(0, 1), P(0, -1)}   \* odd integers just below 2^53 / above 2^52, mirrored
+OwnBScaled(dt) ==
+    LET ps == UNION {{P(p.a, p.d - 2), P(p.a, p.d - 1), p, P(p.a, p.d + 1), P(p.a, p.d + 2)} : p \in {dt.min, dt.max}} \cup OddPoints IN
+    {GI(p.a, p.d) : p \in ps} \cup {BG(p.a, p.d) : p \in ps}
 OwnEnum(dt) ==
     UNION {{I(m.v), Lit(m.n), Mem(m.v, m.n), N(m.v * U), N(m.v * U + 8)} : m \in Rng(dt.mem)}
     \cup {I(99), Lit("zz"), Mem(99, "zz"), Mem(dt.mem[1].v, "zz")}
@@ -500,6 +538,7 @@ Good(dt) ==
       [] dt.k = "bigint" -> {CI(dt.max.a, dt.max.d)}
       [] dt.k = "scaled" -> {I(0)}                       \* catalogue types contain 0
       [] dt.k = "gscaled" -> {I(dt.max), G(4 * dt.max, FALSE)}      \* grid index on the wire, physical value from python
+      [] dt.k = "bscaled" -> {GI(dt.max.a, dt.max.d - 1), BG(dt.max.a, dt.max.d - 1)}
       [] dt.k = "bool" -> {B(TRUE)}
       [] dt.k = "enum" -> {I(dt.mem[1].v)}
       [] dt.k = "string" -> {Plain(Max2(dt.minc, 1))}
@@ -516,6 +555,7 @@ IVal(dt) ==
       [] dt.k = "bigint" -> BI(dt.min.a, dt.min.d)
       [] dt.k = "scaled" -> N(dt.max)
       [] dt.k = "gscaled" -> G(4 * dt.min, FALSE)
+      [] dt.k = "bscaled" -> BG(dt.min.a, dt.min.d)
       [] dt.k = "bool" -> B(FALSE)
       [] dt.k = "enum" -> Mem(dt.mem[Len(dt.mem)].v, dt.mem[Len(dt.mem)].n)
       [] dt.k = "string" -> Plain(Max2(dt.minc, 1))
@@ -530,6 +570,7 @@ Cands(dt) == Common \cup
       [] dt.k = "bigint" -> OwnBig(dt)
       [] dt.k = "scaled" -> OwnScaled(dt)
       [] dt.k = "gscaled" -> OwnGScaled(dt)
+      [] dt.k = "bscaled" -> OwnBScaled(dt)
       [] dt.k = "command" -> {}
       [] dt.k = "bool" -> {}
       [] dt.k = "enum" -> OwnEnum(dt)
@@ -576,26 +617,37 @@ Prevs(dt, c) ==
 (* a gnum is a python float (never on the wire); a plain number offered from python to a gscaled position *)
 (* would have to be divided by the float scale: such cases are left to the random driver, whose alpha     *)
 (* classifies them in grid units with exact rational arithmetic                                           *)
-RECURSIVE HasGnum(_), Ungrounded(_, _)
-HasGnum(c) == CASE c.j = "gnum" -> TRUE
+RECURSIVE HasGnum(_), HasGint(_), Ungrounded(_, _), UngroundedW(_, _)
+HasGint(c) == CASE c.j = "gint" -> TRUE
+                [] c.j = "list" -> \E i \in DOMAIN c.xs : HasGint(c.xs[i])
+                [] c.j = "obj" -> \E i \in DOMAIN c.kv : HasGint(c.kv[i].v)
+                [] OTHER -> FALSE
+UngroundedW(d, c) ==            \* on the wire: a plain integer beyond the small range offered to a bscaled position
+    CASE d.k = "bscaled" -> (c.j = "int" /\ Abs(c.n) >= HUGE) \/ c.j = "bint" \/ (c.j = "num" /\ Abs(c.t) >= HUGE)
+      [] d.k = "array" /\ c.j = "list" -> \E i \in DOMAIN c.xs : UngroundedW(d.el, c.xs[i])
+      [] d.k = "tuple" /\ c.j = "list" -> \E i \in 1 .. Min2(Len(d.els), Len(c.xs)) : UngroundedW(d.els[i], c.xs[i])
+      [] d.k = "struct" /\ c.j = "obj" -> \E i \in DOMAIN c.kv : c.kv[i].k \in Names(d) /\ UngroundedW(TypeOf(d, c.kv[i].k), c.kv[i].v)
+      [] OTHER -> FALSE
+HasGnum(c) == CASE c.j \in {"gnum", "bgnum"} -> TRUE
                 [] c.j = "list" -> \E i \in DOMAIN c.xs : HasGnum(c.xs[i])
                 [] c.j = "obj" -> \E i \in DOMAIN c.kv : HasGnum(c.kv[i].v)
                 [] OTHER -> FALSE
 Ungrounded(d, c) ==
     CASE d.k = "gscaled" -> c.j \in {"int", "num", "bint", "bool", "member", "fmax"}
+      [] d.k = "bscaled" -> c.j \in {"int", "num", "bint", "bool", "member", "fmax"}
       [] d.k = "array" /\ c.j = "list" -> \E i \in DOMAIN c.xs : Ungrounded(d.el, c.xs[i])
       [] d.k = "tuple" /\ c.j = "list" -> \E i \in 1 .. Min2(Len(d.els), Len(c.xs)) : Ungrounded(d.els[i], c.xs[i])
       [] d.k = "struct" /\ c.j = "obj" -> \E i \in DOMAIN c.kv : c.kv[i].k \in Names(d) /\ Ungrounded(TypeOf(d, c.kv[i].k), c.kv[i].v)
       [] OTHER -> FALSE
 PathsFor(d, c, p) ==
-    (IF HasInternal(c) \/ HasGnum(c) THEN {} ELSE {"wire"})
-    \cup (IF Ungrounded(d, c) THEN {} ELSE (IF p # None THEN {"write"} ELSE {"write", "call"}))
+    (IF HasInternal(c) \/ HasGnum(c) \/ UngroundedW(d, c) THEN {} ELSE {"wire"})
+    \cup (IF Ungrounded(d, c) \/ HasGint(c) THEN {} ELSE (IF p # None THEN {"write"} ELSE {"write", "call"}))
 Cases(dt) == UNION {{[c |-> c, p |-> p, path |-> path] : path \in PathsFor(dt, c, p)} :
                       <<c, p>> \in UNION {{<<x, q>> : q \in Prevs(dt, x)} : x \in Cands(dt)}}
 
 (* ------------------------------------------------------ C02: the wire encoding *)
 WireKind(d) == CASE d.k = "double" -> "num"
-                 [] d.k \in {"int", "bigint", "scaled", "gscaled", "enum"} -> "int"
+                 [] d.k \in {"int", "bigint", "scaled", "gscaled", "bscaled", "enum"} -> "int"
                  [] d.k = "bool" -> "bool"
                  [] d.k = "string" -> "str"
                  [] d.k = "blob" -> "b64str"
@@ -608,6 +660,7 @@ Export(d, v) ==
     CASE d.k \in {"double", "int", "bigint", "bool", "string"} -> v
       [] d.k = "scaled" -> I(v.t \div d.scale)
       [] d.k = "gscaled" -> I(v.q \div 4)
+      [] d.k = "bscaled" -> GI(v.a, v.d)                      \* exactly the grid index, also where n + 0.5 is not a double
       [] d.k = "enum" -> I(v.n)
       [] d.k = "blob" -> B64(v.len)
       [] d.k = "array" -> L([i \in 1 .. Len(v.xs) |-> Export(d.el, v.xs[i])])
@@ -618,7 +671,7 @@ Export(d, v) ==
 (* the JSON value j has the kind SECoP prescribes for d, at every position *)
 KindOK(d, j) ==
     CASE WireKind(d) = "num" -> j.j = "num"
-      [] WireKind(d) = "int" -> j.j \in {"int", "bint"}
+      [] WireKind(d) = "int" -> j.j \in {"int", "bint", "gint"}
       [] WireKind(d) = "bool" -> j.j = "bool"
       [] WireKind(d) = "str" -> j.j = "str"
       [] WireKind(d) = "b64str" -> j.j = "str" /\ j.blen >= 0
@@ -643,6 +696,9 @@ VS(d) ==
       [] d.k = "bigint" -> {BI(p.a, p.d) : p \in {q \in {d.min, P(d.min.a, d.min.d + 1), P(d.max.a, d.max.d - 1), d.max,
                                                             P(1, 1), P(2, 1), P(3, -1), P(0, FAR)} : PLE(d.min, q) /\ PLE(q, d.max)}}
       [] d.k = "scaled" -> {N(t) : t \in {m \in {d.min, d.min + d.scale, 0, d.max - d.scale, d.max} : d.min <= m /\ m <= d.max}}
+      [] d.k = "bscaled" -> {BG(p.a, p.d) : p \in {q \in {d.min, P(d.min.a, d.min.d + 1), P(d.max.a, d.max.d - 1), d.max, P(0, 0)} \cup OddPoints :
+                                                         PLE(d.min, q) /\ PLE(q, d.max) /\ ~(q.a \in {-2, 2} /\ q.d = 0)}}
+                            \* (+-2^53 itself is left to C01: limit +- scale is not a double there, see findings.d/C01.json)
       [] d.k = "gscaled" -> {G(4 * n, FALSE) : n \in {m \in {d.min, d.min + 1, 0, 1, 1000, d.max - 1, d.max} : d.min <= m /\ m <= d.max}}
       [] d.k = "bool" -> {B(TRUE), B(FALSE)}
       [] d.k = "enum" -> {Mem(m.v, m.n) : m \in Rng(d.mem)}
@@ -670,7 +726,7 @@ VS(d) ==
 
 (* equal at every leaf that is not a float (double, scaled) *)
 EqModFloat(d, a, b) ==
-    CASE d.k \in {"double", "scaled", "gscaled"} -> TRUE
+    CASE d.k \in {"double", "scaled", "gscaled", "bscaled"} -> TRUE
       [] d.k \in {"array", "tuple"} ->
            /\ b.j = "list" /\ Len(b.xs) = Len(a.xs)
            /\ \A i \in 1 .. Len(a.xs) : EqModFloat(IF d.k = "array" THEN d.el ELSE d.els[i], a.xs[i], b.xs[i])
@@ -688,7 +744,7 @@ CmdCalls(d) ==
     {[a |-> as[((s - 1) % Len(as)) + 1], r |-> rs[((s - 1) % Len(rs)) + 1]] : s \in 1 .. n}
 
 RECURSIVE HasFloat(_)
-HasFloat(d) == CASE d.k \in {"double", "scaled", "gscaled"} -> TRUE
+HasFloat(d) == CASE d.k \in {"double", "scaled", "gscaled", "bscaled"} -> TRUE
                  [] d.k = "array" -> HasFloat(d.el)
                  [] d.k = "tuple" -> \E i \in 1 .. Len(d.els) : HasFloat(d.els[i])
                  [] d.k = "struct" -> \E i \in 1 .. Len(d.mem) : HasFloat(d.mem[i].t)
@@ -732,7 +788,12 @@ Rebuild(i) ==
       [] ty = "int" -> IF ValOf(i, "min").j = "bint" \/ ValOf(i, "max").j = "bint"
                        THEN [k |-> "bigint", min |-> PosOf(ValOf(i, "min")), max |-> PosOf(ValOf(i, "max"))]   \* limits kept exactly
                        ELSE [k |-> "int", min |-> GetI(i, "min", 0), max |-> GetI(i, "max", 0)]
-      [] ty = "scaled" /\ ValOf(i, "scale").j = "gscale" ->      \* a scale of the table: exactly that float; limits are the integers given
+      [] ty = "scaled" /\ ValOf(i, "scale").j = "gscale" /\ (ValOf(i, "min").j = "gint" \/ ValOf(i, "max").j = "gint") ->
+                          [k |-> "bscaled", sid |-> ValOf(i, "scale").sid, min |-> GPos(ValOf(i, "min")), max |-> GPos(ValOf(i, "max")),
+                           abs |-> GetT(i, "absolute_resolution", -1),
+                           rel |-> IF HasKey(i, "relative_resolution") THEN RelOf(ValOf(i, "relative_resolution")) ELSE -1,
+                           unit |-> GetS(i, "unit", ""), fmt |-> GetS(i, "fmtstr", "%g")]
+      [] ty = "scaled" /\ ValOf(i, "scale").j = "gscale" /\ ValOf(i, "min").j # "gint" /\ ValOf(i, "max").j # "gint" ->      \* a scale of the table: exactly that float; limits are the integers given
                           [k |-> "gscaled", sid |-> ValOf(i, "scale").sid, min |-> GetI(i, "min", 0), max |-> GetI(i, "max", 0),
                            abs |-> GetT(i, "absolute_resolution", -1),
                            rel |-> IF HasKey(i, "relative_resolution") THEN RelOf(ValOf(i, "relative_resolution")) ELSE -1,
@@ -763,6 +824,7 @@ Rebuild(i) ==
 
 (* a canonical datainfo of d: only the non-default properties (keys in sorted order) *)
 KV(k, v) == [k |-> k, v |-> v]
+GJ(p) == IF p.a = 0 /\ Abs(p.d) < HUGE THEN I(p.d) ELSE GI(p.a, p.d)
 PosJ(p) == IF p.a = 0 /\ Abs(p.d) < HUGE THEN I(p.d) ELSE BI(p.a, p.d)
 OptKV(cond, k, v) == IF cond THEN <<KV(k, v)>> ELSE <<>>
 Describe(d) ==
@@ -781,6 +843,11 @@ Describe(d) ==
       [] d.k = "gscaled" ->
            O(OptKV(d.abs # -1, "absolute_resolution", N(d.abs)) \o OptKV(d.fmt # "%g", "fmtstr", Txt(d.fmt))
              \o <<KV("max", I(d.max)), KV("min", I(d.min))>>
+             \o OptKV(d.rel # -1, "relative_resolution", N(2 * d.rel))
+             \o <<KV("scale", [j |-> "gscale", sid |-> d.sid]), KV("type", Txt("scaled"))>> \o OptKV(d.unit # "", "unit", Txt(d.unit)))
+      [] d.k = "bscaled" ->
+           O(OptKV(d.abs # -1, "absolute_resolution", N(d.abs)) \o OptKV(d.fmt # "%g", "fmtstr", Txt(d.fmt))
+             \o <<KV("max", GJ(d.max)), KV("min", GJ(d.min))>>
              \o OptKV(d.rel # -1, "relative_resolution", N(2 * d.rel))
              \o <<KV("scale", [j |-> "gscale", sid |-> d.sid]), KV("type", Txt("scaled"))>> \o OptKV(d.unit # "", "unit", Txt(d.unit)))
       [] d.k = "command" -> O(OptKV(d.arg.k # "none", "argument", Describe(d.arg)) \o OptKV(d.res.k # "none", "result", Describe(d.res))
@@ -806,6 +873,8 @@ Deco(d, u, f, dflt) ==
       [] d.k = "scaled" -> [k |-> "scaled", scale |-> d.scale, min |-> d.min, max |-> d.max,
                             abs |-> IF dflt THEN d.scale ELSE 0, rel |-> IF dflt THEN -1 ELSE 1, unit |-> u, fmt |-> f]
       [] d.k = "gscaled" -> [k |-> "gscaled", sid |-> d.sid, min |-> d.min, max |-> d.max,
+                             abs |-> IF dflt THEN -1 ELSE 0, rel |-> IF dflt THEN -1 ELSE 1, unit |-> u, fmt |-> f]
+      [] d.k = "bscaled" -> [k |-> "bscaled", sid |-> d.sid, min |-> d.min, max |-> d.max,
                              abs |-> IF dflt THEN -1 ELSE 0, rel |-> IF dflt THEN -1 ELSE 1, unit |-> u, fmt |-> f]
       [] d.k = "array" -> [d EXCEPT !.el = Deco(d.el, u, f, dflt)]
       [] d.k = "tuple" -> [d EXCEPT !.els = [x \in 1 .. Len(d.els) |-> Deco(d.els[x], u, f, dflt)]]
@@ -872,6 +941,7 @@ Supported(a, b) ==
       [] a.k = "bool" -> b.k = "bool"
       [] a.k \in {"command", "none"} -> FALSE
       [] a.k = "gscaled" -> b.k = "gscaled" /\ b.sid = a.sid /\ b.min <= a.min /\ a.max <= b.max
+      [] a.k = "bscaled" -> b.k = "bscaled" /\ b.sid = a.sid /\ PLE(b.min, a.min) /\ PLE(a.max, b.max)
       [] a.k = "bigint" -> b.k = "bigint" /\ PLE(b.min, a.min) /\ PLE(a.max, b.max)
       [] a.k = "enum" -> b.k = "enum" /\ \A m \in Rng(a.mem) : ByVal(b, m.v) # {}
       [] a.k = "string" -> /\ b.k = "string" /\ b.minc <= a.minc /\ (a.utf8 => b.utf8)
@@ -886,7 +956,7 @@ Supported(a, b) ==
 (* allowed verdicts of a.compatible(b): TRUE = passes *)
 (* a gscaled type against another kind or another scale: the model cannot relate grid units, verdict free *)
 RECURSIVE HasGS(_), GClash(_, _)
-HasGS(d) == CASE d.k = "gscaled" -> TRUE
+HasGS(d) == CASE d.k \in {"gscaled", "bscaled"} -> TRUE
               [] d.k = "array" -> HasGS(d.el)
               [] d.k = "tuple" -> \E i \in 1 .. Len(d.els) : HasGS(d.els[i])
               [] d.k = "struct" -> \E i \in 1 .. Len(d.mem) : HasGS(d.mem[i].t)
@@ -894,6 +964,7 @@ HasGS(d) == CASE d.k = "gscaled" -> TRUE
               [] OTHER -> FALSE
 GClash(a, b) ==
     CASE a.k = "gscaled" /\ b.k = "gscaled" -> a.sid # b.sid
+      [] a.k = "bscaled" /\ b.k = "bscaled" -> a.sid # b.sid
       [] a.k = "array" /\ b.k = "array" -> GClash(a.el, b.el)
       [] a.k = "tuple" /\ b.k = "tuple" /\ Len(a.els) = Len(b.els) -> \E i \in 1 .. Len(a.els) : GClash(a.els[i], b.els[i])
       [] a.k = "struct" /\ b.k = "struct" /\ Names(a) = Names(b) ->
@@ -920,6 +991,7 @@ Scl(s, lo, hi) == [k |-> "scaled", scale |-> s, min |-> lo, max |-> hi]
 BoolT == [k |-> "bool"]
 BigT(lo, hi) == [k |-> "bigint", min |-> lo, max |-> hi]
 GScl(sid, lo, hi) == [k |-> "gscaled", sid |-> sid, min |-> lo, max |-> hi]
+BScl(sid, lo, hi) == [k |-> "bscaled", sid |-> sid, min |-> lo, max |-> hi]
 Text(hi) == [k |-> "string", minc |-> 0, maxc |-> hi, utf8 |-> FALSE, text |-> TRUE]
 Lim(el) == [k |-> "tuple", els |-> <<el, el>>, limit |-> TRUE]
 Cmd(a, r) == [k |-> "command", arg |-> a, res |-> r]
@@ -945,12 +1017,15 @@ Leaves == <<Dbl(-16, 40, 0, 0), Dbl(0, 160, 4, 0), Dbl(16, 16, 0, 1), Dbl(-NoLim
             GScl("0.1", 3, 7), GScl("0.1", -7, -3), GScl("0.2", -3, 7), GScl("0.01", 29, 57), GScl("0.003", -9, 33),
             GScl("1/3", -2, 7), GScl("2^-20", 0, 1000000), GScl("1.000001e-3", 0, 1000000), GScl("0.0254/4096", -5, 100000),
             GScl("7", -3, 9), GScl("1e6", 0, 12),
+            \* integer range up to 2^53: every grid point is a double, n + 0.5 is not
+            BScl("1", P(-2, 0), P(2, 0)), BScl("0.5", P(-1, -5), P(2, -1)), BScl("8", P(0, 0), P(2, 0)),
             \* convenience types and the shapes the short constructor forms produce (StringType(n), BLOBType(n), IntRange())
             Text(NoLim), Text(5), Lim(Dbl(-16, 40, 4, 0)), Lim(IntT(-2, 3)), Lim(Scl(4, 0, 160)), Lim(GScl("0.1", 3, 7)),
             Strg(2, 2, FALSE), Blob(2, 2), IntT(-16777216, 16777216), Status>>
 NL == Len(Leaves)
 Lf(i) == Leaves[((i - 1) % NL) + 1]
-SmallLeaves == <<IntT(-2, 3), GScl("0.1", 3, 7), BigT(P(1, 1), P(4, -1)), Blob(1, 3), Scl(4, 0, 160), GScl("1/3", -6, 1000000),
+SmallLeaves == <<IntT(-2, 3), GScl("0.1", 3, 7), BigT(P(1, 1), P(4, -1)), Blob(1, 3), BScl("1", P(-2, 0), P(2, 0)), Scl(4, 0, 160),
+                 GScl("1/3", -6, 1000000),
                  Strg(1, 3, FALSE), Dbl(0, 160, 4, 0),
                  Enm(<<[n |-> "a", v |-> 1], [n |-> "b", v |-> 2]>>)>>
 NS == Len(SmallLeaves)
@@ -1022,7 +1097,8 @@ Commands == <<Cmd(NoT, NoT), Cmd(IntT(0, 10), NoT), Cmd(IntT(0, 5), NoT), Cmd(No
 (* C02: commands over all ordered pairs of a small set of argument / result types (none included) *)
 CmdSmall == <<NoT, Scl(4, 0, 160), Blob(1, 3), Enm(<<[n |-> "off", v |-> 0], [n |-> "on", v |-> 1]>>),
               Tup(<<IntT(0, 10), Strg(1, 3, FALSE)>>), Arr(Scl(4, 0, 160), 0, 2), AB(IntT(0, 10), Blob(0, 6), <<"b">>),
-              GScl("0.1", 3, 7), BigT(P(1, 1), P(4, -1)), IntT(0, 10), Dbl(0, 160, 4, 0), BoolT, Strg(0, 8, TRUE)>>
+              GScl("0.1", 3, 7), BigT(P(1, 1), P(4, -1)), IntT(0, 10), Dbl(0, 160, 4, 0), BoolT, Strg(0, 8, TRUE),
+              BScl("0.5", P(-2, 0), P(2, 0))>>
 NCm == Len(CmdSmall)
 CmdPairs == SelectSeq([i \in 1 .. NCm * NCm |-> Cmd(CmdSmall[((i - 1) \div NCm) + 1], CmdSmall[((i - 1) % NCm) + 1])],
                       LAMBDA c : c.arg # c.res \/ c.arg = NoT)
